@@ -103,6 +103,21 @@ func c12GenHTML(t *rapid.T) c12Case {
 	sb.WriteString(rapid.SampledFrom(c12Starts).Draw(t, "start"))
 	for i, n := 0, rapid.IntRange(0, 4).Draw(t, "npro"); i < n; i++ {
 		p := rapid.SampledFrom(c12HTMLPrologue).Draw(t, "pro")
+		if rapid.IntRange(0, 11).Draw(t, "long") == 0 {
+			// one long token (several KiB): comment, script body, white-space run, long attribute
+			n := rapid.SampledFrom([]int{1500, 3000, 4090, 4100, 5000, 9000, 20000}).Draw(t, "longlen")
+			switch rapid.IntRange(0, 3).Draw(t, "longkind") {
+			case 0:
+				p = "<!-- " + strings.Repeat("long comment ", n/13) + "-->"
+			case 1:
+				p = "<script>/* " + strings.Repeat("x = 1; ", n/7) + "*/</script>"
+			case 2:
+				p = strings.Repeat(" \n", n/2)
+			default:
+				p = "<link rel=\"icon\" href=\"data:," + strings.Repeat("A", n) + "\">"
+			}
+			flags["long-prologue-token"] = true
+		}
 		if strings.Contains(p, "fake") || strings.Contains(p, "decoy") {
 			flags["decoy-before"] = true
 		}
@@ -250,7 +265,7 @@ func c12Check(c c12Case) vfResult {
 	r.Labels = append(r.Labels, c.Kind)
 	r.Labels = append(r.Labels, c.Flags...)
 	for _, f := range c.Flags {
-		if f == "label-not-utf8" || f == "decoy-before" || f == "bom" || f == "decoy-after" || f == "space-around-eq" {
+		if f == "label-not-utf8" || f == "decoy-before" || f == "bom" || f == "decoy-after" || f == "space-around-eq" || f == "long-prologue-token" {
 			r.Nontrivial = true
 		}
 	}
